@@ -50,6 +50,9 @@ def main(argv: List[str]) -> int:
     res = docs.run_items(list(items.values()), rep, 'C01')
     doccheck.judge('C01', rep, res, items,
                    lambda it: docs.doc_features(it['doc']) > 0 or it['fseed'] is not None or bool(it['pinned']))
+    from . import census
+    rep.census.require('C01', census.BASE + ['idx.pk_between_others', 'col.two_inline_refs', 'table.case_variant_siblings', 'ref.name.braces',
+                                            'col.type.public_explicit', 'table.schema_public_explicit'], rep)
     rep.notes['documents'] = len(ds)
     rep.notes['forms_per_document'] = len(docs.form_plan(nrand, True, 0))
     for tid in list(items)[:2]:
